@@ -183,7 +183,7 @@ PROPS = {
             "thorough": "same with Skel-thorough and the thorough grid families",
         },
         "not_decided": ["'accepted => simulates' is decided under C02/C13 for the skeletons covered there", "combinations of several rule violations at once (each rule is checked on its own)"],
-        "assumptions": COMMON_ASSUMPTIONS + ["accepted => solves is claimed for specifications whose filters leave every period at least one admissible (restricted state, restricted choice) combination: indexing into an empty space is not modelled by the array stubs, and the real code then fails with an IndexError"],
+        "assumptions": COMMON_ASSUMPTIONS + ["accepted => solves is proved under the hypothesis that the filters leave every period at least one admissible (restricted state, restricted choice) combination; the opposite case is rejected with a ValueError when the spaces are created (fix c50f42d, decided by the rule instance filter-admitting-no-combination for one structure)"],
     },
     "C02": {
         "contracts": ["C02.decisions", "lcm.argmax.argmax", "lcm.argmax.segment_argmax", "lcm.model_functions.get_utility_and_feasibility_function", "lcm.dispatchers.spacemap", "lcm.dispatchers.vmap_1d"],
